@@ -258,6 +258,8 @@ def subst(t, m: dict):
 
 def show(t, depth=0) -> str:
     h = t[0]
+    if h == "stack":
+        return "stack(" + "; ".join(show(x, depth + 1) for x in t[2][:3]) + ")"
     if h == "in":
         ix = ",".join((u if s[0] == "v" and len(s[1]) > 0 and False else (f"{u}∈{{{','.join(map(str, s[1]))}}}" if s[0] == "v" else str(s[1]))) for u, s in t[2])
         return f"{t[1]}[{ix}]"
@@ -995,6 +997,50 @@ def reshape(a: AArr, shape):
     it = iter(src)
     axes = [ONE if s == 1 else next(it) for s in shape]
     return AArr(axes, a.term, a.buf, view=True, dtype=a.dtype, origin=(a, None))
+
+
+def stack(arrs, axis=0):
+    """np.stack of arrays over the same axes along a NEW (unlabelled) axis: entry [.., j, ..] is operand j's entry"""
+    arrs = list(arrs)
+    if not arrs or not all(isinstance(a, AArr) for a in arrs):
+        raise ModelAbort("np.stack of other than arrays")
+    for a in arrs:
+        a.check_fresh()
+    nd = arrs[0].ndim
+    if any(a.ndim != nd for a in arrs):
+        raise NumpyRaise("ValueError", "all input arrays must have the same shape")
+    axes = list(arrs[0].axes)
+    for a in arrs[1:]:
+        for k in range(nd):
+            if axis_len(a.axes[k]) != axis_len(axes[k]):
+                raise NumpyRaise("ValueError", "all input arrays must have the same shape")
+            axes[k] = _unify(axes[k], a.axes[k], "np.stack")          # same length, other labels: combined by position
+    pos = int(axis) % (nd + 1)
+    out_axes = axes[:pos] + [("#", len(arrs))] + axes[pos:]
+    return AArr(out_axes, ("stack", pos, tuple(a.term for a in arrs)), Buf("np.stack"))
+
+
+def adopt_labels(a: AArr, axes_items):
+    """an array whose unlabelled axes are stored under dimensions of the same lengths: positions become the dimensions' items in order
+    (what FlodymArray(dims=..., values=ndarray) means).  A stacked axis turns into one update per item."""
+    if not isinstance(a, AArr) or len(a.axes) != len(axes_items):
+        return
+    if not any(isinstance(ax, tuple) and ax and ax[0] == "#" for ax in a.axes):
+        return
+    t = a.term
+    if not (isinstance(t, tuple) and t[0] == "stack"):
+        return
+    pos = t[1]
+    items = tuple(axes_items[pos])
+    if a.axes[pos] != ("#", len(items)) or len(t[2]) != len(items):
+        return
+    if any(isinstance(ax, tuple) and ax and ax[0] == "#" for i, ax in enumerate(a.axes) if i != pos):
+        return
+    term = ("k", 0)
+    for item, sub in zip(items, t[2]):
+        term = ("upd", term, ((universe(item), ("c", item)),), sub)
+    a.axes = tuple(a.axes[:pos]) + (items,) + tuple(a.axes[pos + 1:])
+    a.term = term
 
 
 def same_entries(a: AArr, b: AArr) -> bool:
